@@ -182,6 +182,13 @@ func c11Run(c *core.Case, o *core.Outcome) {
 		if nw > 0 {
 			windows = 2 * nw
 		}
+		if sigma*80 < R && n <= 20000 {
+			// a narrow bell in a long window: the fraction left at the end of one window is owed to the next
+			windows = max(windows, 8)
+			if nw > 0 {
+				windows = (windows + nw - 1) / nw * nw
+			}
+		}
 		cycle := R
 		if nw > 0 {
 			cycle = R * time.Duration(nw)
@@ -232,6 +239,7 @@ func c11Run(c *core.Case, o *core.Outcome) {
 		for off := 0; off < offsets; off++ {
 			ok := true
 			maxRatio := 0.0
+			cumSum, cumReal := 0.0, 0.0
 			for w := 0; w < windows; w++ {
 				wf := 1.0
 				if nw > 0 {
@@ -246,6 +254,14 @@ func c11Run(c *core.Case, o *core.Outcome) {
 				if errv > bound || carry >= 1+1e-9*real+1e-6 {
 					ok = false
 					why = fmt.Sprintf("offset %d window %d: requested %.0f, configured %.3f (discretisation bound %.3f), exact sum of real rates %.6f (carry error %.6f)", off, w, sums[w], expect, bound, real, carry)
+					break
+				}
+				// the same across windows: what a window leaves unrequested is carried into the next one
+				cumSum += sums[w]
+				cumReal += real
+				if cum := math.Abs(cumSum - cumReal); cum >= 1+1e-9*cumReal+1e-6 {
+					ok = false
+					why = fmt.Sprintf("offset %d: after %d windows %.0f requests were made, the real rates add up to %.6f (difference %.6f: a remainder was lost between windows)", off, w+1, cumSum, cumReal, cum)
 					break
 				}
 				if errv/bound > maxRatio {
